@@ -88,6 +88,8 @@ def read_chart(ch, fmt):
     _r("Chart.has_legend", lambda: ch.has_legend)
     _r("Chart.has_title", lambda: ch.has_title)
     _r("Chart.chart_style", lambda: ch.chart_style)
+    if _r("Chart.has_title(2)", lambda: ch.has_title):
+        _r("ChartTitle.has_text_frame", lambda: ch.chart_title.has_text_frame)
     for pl in _r("Chart.plots", lambda: list(ch.plots)) or []:
         _r("Plot.categories", lambda: list(pl.categories))
         _r("Plot.categories.flattened_labels", lambda: pl.categories.flattened_labels)
@@ -128,6 +130,8 @@ def read_chart(ch, fmt):
             if hasattr(pl, "gap_width"):
                 _r("Plot.gap_width", lambda: pl.gap_width)
                 _r("Plot.overlap", lambda: pl.overlap)
+            if hasattr(pl, "bubble_scale"):
+                _r("BubblePlot.bubble_scale", lambda: pl.bubble_scale)
     _r("Chart.series", lambda: [s.name for s in ch.series])
     if fmt:
         for axn in ("category_axis", "value_axis"):
@@ -135,7 +139,13 @@ def read_chart(ch, fmt):
             if ax is not None:
                 _r("Axis.has_major_gridlines", lambda: ax.has_major_gridlines)
                 _r("Axis.has_minor_gridlines", lambda: ax.has_minor_gridlines)
-                _r("Axis.has_title", lambda: ax.has_title)
+                if _r("Axis.has_title", lambda: ax.has_title):
+                    _r("AxisTitle.has_text_frame", lambda: ax.axis_title.has_text_frame)
+                if hasattr(ax, "category_type"):
+                    _r("Axis.category_type", lambda: ax.category_type)
+                if hasattr(ax, "crosses"):
+                    _r("ValueAxis.crosses", lambda: ax.crosses)
+                    _r("ValueAxis.crosses_at", lambda: ax.crosses_at)
                 _r("Axis.major_tick_mark", lambda: ax.major_tick_mark)
                 _r("Axis.minor_tick_mark", lambda: ax.minor_tick_mark)
                 _r("Axis.maximum_scale", lambda: ax.maximum_scale)
@@ -173,6 +183,10 @@ def read_shape(sh, rnd, fmt, depth=0):
         if pf is not None:
             _r("placeholder_format.type", lambda: pf.type)
             _r("placeholder_format.idx", lambda: pf.idx)
+        if hasattr(sh, "sz"):
+            _r("placeholder.idx", lambda: sh.idx)
+            _r("placeholder.orient", lambda: sh.orient)
+            _r("placeholder.sz", lambda: sh.sz)
     cname = sh.__class__.__name__
     has_body = sh._element.find("{%s}txBody" % P) is not None
     if getattr(sh, "has_text_frame", False) and has_body:
@@ -195,6 +209,8 @@ def read_shape(sh, rnd, fmt, depth=0):
         _r("Shape.adjustments", lambda: [a for a in sh.adjustments])
         if fmt:
             _r("Shape.fill.type", lambda: sh.fill.type)
+            if _r("Shape.fill.type(2)", lambda: sh.fill.type) is not None and str(sh.fill.type).startswith("SOLID"):
+                _r("ColorFormat.type", lambda: sh.fill.fore_color.type)
             _r("Shape.line.width", lambda: sh.line.width)
             _r("Shape.line.dash_style", lambda: sh.line.dash_style)
             _r("Shape.line.fill.type", lambda: sh.line.fill.type)
@@ -206,6 +222,16 @@ def read_shape(sh, rnd, fmt, depth=0):
         _r("Connector.end_y", lambda: sh.end_y)
         if fmt:
             _r("Connector.line.width", lambda: sh.line.width)
+    if cname == "Movie":
+        _r("Movie.media_type", lambda: sh.media_type)
+        mf = _r("Movie.media_format", lambda: sh.media_format)
+        _r("Movie.poster_frame", lambda: sh.poster_frame.sha1 if sh.poster_frame is not None else None)
+    if cname == "GraphicFrame" and _r("GraphicFrame.has_chart", lambda: sh.has_chart) is False and not getattr(sh, "has_table", False):
+        of = _r("GraphicFrame.ole_format", lambda: sh.ole_format)
+        if of is not None:
+            _r("_OleFormat.prog_id", lambda: of.prog_id)
+            _r("_OleFormat.show_as_icon", lambda: of.show_as_icon)
+            _r("_OleFormat.blob", lambda: len(of.blob))
     if getattr(sh, "has_chart", False):
         ch = _r("GraphicFrame.chart", lambda: sh.chart)
         if ch is not None:
@@ -214,6 +240,11 @@ def read_shape(sh, rnd, fmt, depth=0):
         t = sh.table
         _r("Table.first_row", lambda: t.first_row)
         _r("Table.horz_banding", lambda: t.horz_banding)
+        _r("Table.first_col", lambda: t.first_col)
+        _r("Table.last_row", lambda: t.last_row)
+        _r("Table.last_col", lambda: t.last_col)
+        _r("Table.vert_banding", lambda: t.vert_banding)
+        _r("Table.iter_cells", lambda: sum(1 for _ in t.iter_cells()))
         for row in t.rows:
             _r("_Row.height", lambda: row.height)
             for cell in row.cells:
@@ -221,6 +252,7 @@ def read_shape(sh, rnd, fmt, depth=0):
                 _r("_Cell.is_merge_origin", lambda: cell.is_merge_origin)
                 _r("_Cell.is_spanned", lambda: cell.is_spanned)
                 _r("_Cell.span_height", lambda: cell.span_height)
+                _r("_Cell.span_width", lambda: cell.span_width)
                 if fmt:
                     _r("_Cell.margin_left", lambda: cell.margin_left)
                     _r("_Cell.vertical_anchor", lambda: cell.vertical_anchor)
@@ -257,13 +289,22 @@ def traverse(prs, rnd, passes=("basic",)):
         jobs.append(("master", m))
         for lay in _r("SlideMaster.slide_layouts", lambda: list(m.slide_layouts)) or []:
             jobs.append(("layout", lay))
-    _r("Presentation.slide_layouts", lambda: list(prs.slide_layouts))
+    lays = _r("Presentation.slide_layouts", lambda: list(prs.slide_layouts)) or []
+    if lays:
+        _r("SlideLayouts.get_by_name", lambda: prs.slide_layouts.get_by_name(lays[0].name))
+        _r("SlideLayouts.index", lambda: prs.slide_layouts.index(lays[-1]))
+    _r("Presentation.slide_master", lambda: prs.slide_master.name)
     rnd.shuffle(jobs)
     if rnd.random() < 0.5:
         jobs = jobs + jobs[: max(1, len(jobs) // 3)]  # repetition
     for kind, obj in jobs:
         _r(kind + ".name", lambda: obj.name)
         shapes = _r(kind + ".shapes", lambda: list(obj.shapes)) or []
+        if kind == "slide":
+            _r("SlideShapes.title", lambda: obj.shapes.title)
+            _r("SlideShapes.placeholders", lambda: len(list(obj.shapes.placeholders)))
+            if shapes:
+                _r("shapes.index", lambda: obj.shapes.index(shapes[0]))
         if rnd.random() < 0.5:
             shapes = list(reversed(shapes))
         for sh in shapes:
